@@ -188,8 +188,6 @@ structure VIn where
   fields : List VField := []
   deriving Repr, Inhabited
 
-def fieldVar (n : S) : S := t "__" ++ n ++ t "__v"
-
 def VIn.hasDefaults (g : VIn) : Bool :=
   g.otherDefaults || g.fields.any (·.hasDefault) || (match g.catchAll with | .dflt _ => true | _ => false)
 
@@ -227,16 +225,24 @@ def pathConds (p : Char → Bool) (required : Bool) : List (List PathPart) → L
   | [x] => [pathCond p required x]
   | x :: r => pathCond p false x :: pathConds p required r
 
+def usesPath (f : VField) : Bool := match f.lookup with | .pathAssign _ => true | .pathAnyOf _ => true | _ => false
+
 def fieldLit (p : Char → Bool) (f : VField) : Part :=
   { text := t "field=" ++ pyRepr p f.name, writes := [t "field"], safe := true }
 
-/-- the statement(s) in front of a field's `if` -/
+/-- `v1=o.get(<key>, MISSING)` -/
+def getPart (p : Char → Bool) (k : Key) : Part :=
+  { text := t "v1=o.get(" ++ k.text p ++ t ", MISSING)", reads := [t "o"] ++ k.reads ++ [t "MISSING"], writes := [t "v1"] }
+
+/-- `v1=safe_get(o, <path>, <required>)` -/
+def pathPart (p : Char → Bool) (required : Bool) (ps : List PathPart) : Part :=
+  { text := t "v1=safe_get(o, " ++ pathRepr p ps ++ t ", " ++ pyBool required ++ t ")", reads := [t "safe_get", t "o"], writes := [t "v1"] }
+
+/-- the statement in front of a field's `if` -/
 def lookupLine (p : Char → Bool) (f : VField) : S0 :=
   match f.lookup with
-  | .assign k => .line [fieldLit p f, { text := t "v1=o.get(" ++ k.text p ++ t ", MISSING)",
-                                          reads := [t "o"] ++ k.reads ++ [t "MISSING"], writes := [t "v1"] }]
-  | .pathAssign ps => .line [fieldLit p f, { text := t "v1=safe_get(o, " ++ pathRepr p ps ++ t ", " ++ pyBool (!f.hasDefault) ++ t ")",
-                                               reads := [t "safe_get", t "o"], writes := [t "v1"] }]
+  | .assign k => .line [fieldLit p f, getPart p k]
+  | .pathAssign ps => .line [fieldLit p f, pathPart p (!f.hasDefault) ps]
   | .anyOf _ => .line [fieldLit p f]
   | .pathAnyOf _ => .line [fieldLit p f]
 
@@ -263,12 +269,18 @@ def condWrites (f : VField) : List S :=
 
 def target (f : VField) : S := if f.hasDefault then t "init_kwargs[field]" else fieldVar f.name
 
+def incPart : Part := { text := t "i+=1", reads := [t "i"], writes := [t "i"] }
+
+/-- `<target> = <expr>` -/
+def exprPart (f : VField) : Part :=
+  { text := target f ++ t " = " ++ f.expr,
+    reads := f.exprReads ++ (if f.hasDefault then [t "init_kwargs", t "field"] else []),
+    writes := f.exprWrites ++ (if f.hasDefault then [] else [fieldVar f.name]) }
+
 /-- `[i+=1; ]<target> = <expr>` -/
-def assignLine (g : VIn) (f : VField) : S0 :=
-  .line ((if g.preAssign then [{ text := t "i+=1", reads := [t "i"], writes := [t "i"] }] else []) ++
-    [{ text := target f ++ t " = " ++ f.expr,
-       reads := f.exprReads ++ (if f.hasDefault then [t "init_kwargs", t "field"] else []),
-       writes := f.exprWrites ++ (if f.hasDefault then [] else [fieldVar f.name]) }])
+def assignParts (g : VIn) (f : VField) : List Part := (if g.preAssign then [incPart] else []) ++ [exprPart f]
+
+def assignLine (g : VIn) (f : VField) : S0 := .line (assignParts g f)
 
 def fieldStmts (p : Char → Bool) (g : VIn) (f : VField) : List S1 :=
   [.s0 (lookupLine p f),
@@ -350,7 +362,7 @@ def skeletonOuter (g : VIn) : List S :=
       | .none, .raise => [t "set", t "UnknownKeysError"]
       | .none, .warn => [t "set", t "LOG"]
       | _, _ => [])
-  ++ [t "safe_get"]
+  ++ (if g.fields.any usesPath then [t "safe_get"] else [])
 
 def bindsAll (p : Char → Bool) (g : VIn) : List S := (genBody p g).flatMap S2.binds
 
